@@ -34,6 +34,7 @@ thread_timer = "0.3.0"
 [features]
 arith = []
 cmpf = []
+pq = []
 [workspace]
 [lints.rust]
 unexpected_cfgs = { level = "allow" }
